@@ -11,9 +11,10 @@ import vlib
 LEVEL_TEXT = ('Lean 4 theorems, for all shapes/targets/parities: pad (2-D and cubes) is the restriction of the centred zero-extended '
               'array (origin sample floor(m/2) -> floor(S/2), every copied sample keeps its coordinate), its slices are in bounds, '
               'pad-then-crop is the identity; subarray/boundary/boundary_slice/slice_offset address the stated index sets; rebin '
-              'preserves the sum; a half-turn-symmetric array has its centroid at the centre; mesh coordinates translate under integer '
+              'preserves the sum; the centroid of a single sample at index (p, q) is (p, q); mesh coordinates translate under integer '
               'shifts and negate under the half-turn index map; circle/rectangle/hexagon values lie in [0,1], are binary without '
-              'antialiasing, translate under integer shifts and are half-turn (and mirror) symmetric; hex_ring(k) has 6k cells at cube '
+              'antialiasing, translate under integer shifts and are half-turn (and, unrotated, mirror) symmetric — hexagons via the closure of their six '
+              'edge normals under negation/mirroring, proved for the real angles n·pi/3 + phi; hex_ring(k) has 6k cells at cube '
               'distance k; a k-ring aperture has 1+3k(k+1) cells minus the dropped numbers in range. PARTIAL: segment non-overlap, '
               'border clearance and equal area are checked on the real code only (no theorem).')
 LEVEL_NOTE = ('Trusted: Lean kernel, py2lean subset semantics, NumPy slicing/reshape/any/where semantics as modelled in '
